@@ -9,7 +9,7 @@ from ..selftest import Mutant
 
 ID = "C36"
 TECHNIQUE = "writer/reader literal-table extraction and comparison (K6) over refs.py, mapping.py, urls.py (ast) and crates/git/src/lib.rs (Rust-lite)"
-FLOOR = 13
+FLOOR = 15
 RF = "breezy/git/refs.py"
 MP = "breezy/git/mapping.py"
 UR = "breezy/git/urls.py"
@@ -24,13 +24,16 @@ R2 (K8) mapping.py: escape_file_id and unescape_file_id are evaluated abstractly
    unescape(escape(x)) == x and escape is injective.  Only when either function uses a construct the evaluator does
    not model do the older syntactic rules decide instead (replace() pairs inverted by the dispatch chain, escape
    character escaped first, unknown code raises).
+R4/R5 (K8) the same abstract evaluation decides parse_file_id(generate_file_id(p)) == p (root, escape characters, '/',
+   a non-UTF-8 byte carried as a surrogate, a non-ASCII letter; ids pairwise distinct) and
+   revision_id_bzr_to_foreign(revision_id_foreign_to_bzr(sha)) == sha under every mapping class's revid_prefix.
 R3 (K6/K10) URL segment-parameter keys written by urls.py:git_url_to_bzr_url equal the keys read by
    crates/git/src/lib.rs:bzr_url_to_git_url, and the (url, branch, ref) result order matches what
    git/branch.py:GitBranch.set_parent unpacks.
 Added while testing against seeded changes: Also: URL parameter values percent-encoded by the writer are decoded by
 the Rust reader; set_parent and get_parent use the same git config entries (section roles: remote resolver, branch
 name).
-Does not decide: quoting of arbitrary bytes (urlutils), sha <-> revision-id mapping arithmetic.
+Does not decide: quoting of arbitrary bytes (urlutils).
 """
 
 
@@ -152,6 +155,81 @@ def run(ctx):
         gate = [n for n in walk_own(fu) if isinstance(n, ast.Compare) and isinstance(n.ops[0], ast.NotEq) and isinstance(n.comparators[0], ast.Constant) and n.comparators[0].value in esc]
         ctx.check("R2-inverse-table", where, bool(gate), "unescape dispatches on the same escape character")
         ctx.check("R2-unknown-code-raises", where, any(isinstance(n, ast.Raise) for n in walk_own(fu)), "an unknown escape code raises")
+
+    # ---- R4/R5: path <-> file id and git sha <-> revision id, decided by the same abstract evaluation ----------------
+    from ..absint import Obj
+
+    _mc = module_regex_hook(repo.module(MP).tree)
+    # constants of other packages the two mappings compare with (dulwich.protocol.ZERO_SHA, breezy.revision.NULL_REVISION)
+    _ext = {"ZERO_SHA": b"0" * 40, "NULL_REVISION": b"null:"}
+
+    def mod_consts(name):
+        v = _mc(name)
+        return _ext.get(name, NotImplemented) if v is NotImplemented else v
+
+    def _hook45(interp, call, name, ev_args, env):
+        if name and "." not in name and repo.has(MP, name):
+            f_ = repo.func(MP, name)
+            args, kw = ev_args()
+            return interp.call(f_, {**dict(zip([a.arg for a in f_.args.args], args)), **kw})
+        if name == "cls":
+            return Obj("mapping")
+        return NotImplemented
+
+    it45 = Interp(call_hook=_hook45, name_hook=mod_consts, loop_bound=256)
+    fg, fpz = repo.func(MP, "BzrGitMapping.generate_file_id"), repo.func(MP, "BzrGitMapping.parse_file_id")
+    wfid = f"{MP}:BzrGitMapping.generate_file_id/parse_file_id"
+    paths = [""] + ["".join(t) for k in (1, 2, 3) for t in itertools.product(["a", "_", " ", "/", "\x0c", "\udcff", "\xe9"], repeat=k)]
+    badp, ok45 = [], True
+    try:
+        seen_ids = {}
+        for x in paths:
+            it45.steps = 0
+            fid = it45.call(fg, {"self": Obj("mapping"), "path": x})
+            try:
+                back = it45.call(fpz, {"self": Obj("mapping"), "file_id": fid})
+            except Raised as r:
+                back = ("raises", r.name)
+            if back != x:
+                badp.append((x, fid, back))
+            if fid in seen_ids and seen_ids[fid] != x:
+                badp.append((x, fid, ("collides with", seen_ids[fid])))
+            seen_ids[fid] = x
+    except (Raised, Unsupported) as ex:
+        ok45 = False
+        ctx.info("R4-fileid-roundtrip-table", wfid, f"not evaluable ({ex}); not decided on this run")
+    if ok45:
+        ctx.fact(len(paths))
+        ctx.check("R4-fileid-roundtrip-table", wfid, not badp, f"parse_file_id(generate_file_id(p)) == p and the ids are distinct for {len(paths)} paths (root, escape characters, '/', a non-UTF-8 byte as surrogate, a non-ASCII letter)", construct=str(badp[:2]), message=f"paths do not survive the file-id mapping: {badp[:2]}")
+    sub = [q for q in repo.module(MP).classes() if (MP, "BzrGitMapping") in repo.mro(MP, q) and q != "BzrGitMapping"]
+    prefixes = {}
+    for q in sub:
+        for st in repo.cls(MP, q).body:
+            if isinstance(st, ast.Assign) and norm(st.targets[0]) == "revid_prefix" and isinstance(st.value, ast.Constant):
+                prefixes[q] = st.value.value
+    ctx.require(len(prefixes) >= 2, f"{MP}: only {len(prefixes)} mapping classes with a revid_prefix found")
+    ff, fb = repo.func(MP, "BzrGitMapping.revision_id_foreign_to_bzr"), repo.func(MP, "BzrGitMapping.revision_id_bzr_to_foreign")
+    wrid = f"{MP}:BzrGitMapping.revision_id_foreign_to_bzr/revision_id_bzr_to_foreign"
+    shas = [b"a" * 40, b"0123456789abcdef0123456789abcdef01234567", b"f" * 40]
+    badr, ok5 = [], True
+    try:
+        for q, pre in sorted(prefixes.items()):
+            for sha in shas:
+                it45.steps = 0
+                cls_ = Obj(q, revid_prefix=pre)
+                rid = it45.call(ff, {"cls": cls_, "git_rev_id": sha})
+                back = it45.call(fb, {"cls": cls_, "bzr_rev_id": rid})
+                got = back[0] if isinstance(back, tuple) else back
+                if got != sha or not (isinstance(rid, bytes) and rid.startswith(pre + b":")):
+                    badr.append((q, sha, rid, got))
+        others = {q: p_ for q, p_ in prefixes.items()}
+        clash = [(a, b) for a in others for b in others if a < b and (others[a] + b":").startswith(others[b] + b":")]
+    except (Raised, Unsupported) as ex:
+        ok5 = False
+        ctx.info("R5-revid-roundtrip-table", wrid, f"not evaluable ({ex}); not decided on this run")
+    if ok5:
+        ctx.fact(len(prefixes) * len(shas))
+        ctx.check("R5-revid-roundtrip-table", wrid, not badr and not clash, f"revision_id_bzr_to_foreign(revision_id_foreign_to_bzr(sha)) gives the sha back under every mapping prefix {sorted(p_.decode() for p_ in prefixes.values())}, and no prefix is a prefix of another", construct=str((badr[:2], clash)), message=f"git shas do not survive the revision-id mapping: {badr[:2]} {clash}")
 
     # ---- R3 -----------------------------------------------------------------
     from ..astutil import bind_roles, canonicalise
@@ -282,6 +360,9 @@ def run(ctx):
 
 
 MUTANTS = [
+    Mutant("parse_file_id forgets to unescape", MP, "        return decode_git_path(unescape_file_id(file_id[len(FILE_ID_PREFIX) :]))\n", "        return decode_git_path(file_id[len(FILE_ID_PREFIX) :])\n", expect="R4-fileid-roundtrip-table"),
+    Mutant("revision id written with another separator", MP, "        return b\"%s:%s\" % (cls.revid_prefix, git_rev_id)\n", "        return b\"%s-%s\" % (cls.revid_prefix, git_rev_id)\n", expect="R5-revid-roundtrip-table"),
+    Mutant("neutral: root id test written the other way round", MP, "        if path == b\"\":\n            return ROOT_ID\n", "        if not path:\n            return ROOT_ID\n", neutral=True),
     Mutant("writer escapes newline, reader does not know the code", MP, "    file_id = file_id.replace(b\"\\x0c\", b\"_c\")\n", "    file_id = file_id.replace(b\"\\x0c\", b\"_c\")\n    file_id = file_id.replace(b\"\\n\", b\"_n\")\n", expect="R2-roundtrip-table"),
     Mutant("rust reader returns the branch parameter still percent-encoded", RS, ".get(\"branch\")\n        .map(|s| dromedary::urlutils::unescape(s))\n        .transpose()?;", ".get(\"branch\")\n        .map(|s| s.to_string());", expect="url-value-encoding"),
     Mutant("set_parent writes under the push remote", "breezy/git/branch.py", "        cs = self.repository._git.get_config()\n        remote = self._get_origin(cs)", "        cs = self.repository._git.get_config()\n        remote = self._get_push_origin(cs)", expect="parent-config-keys"),
